@@ -1595,6 +1595,75 @@ def spread_entries(fa, e, at):
     return out
 
 
+class _Arm:
+    """one case of a definition that creates a mapping by pouring a local mapping in (`{**base, **extra}` where `extra` was
+    made, case by case, as a display): the definition as it reads in that case"""
+    def __init__(self, d, value, cases, at):
+        self.node, self.name, self.kind, self.stmt = d.node, d.name, d.kind, d.stmt
+        self.value, self.cases, self.at = value, cases, at
+
+
+def _merge_arms(fa, d):
+    """`d` creates a mapping as `{**base, **local}` / `dict(base, **local)` and every definition of `local` that reaches it
+    is a display with constant keys (or empty): the cases, each written out as `{**base, key: value, ...}`.  None when the
+    definition is not of that form."""
+    v = strip_cast(d.value) if d.value is not None else None
+    base, poured = None, None
+    if isinstance(v, ast.Dict) and len(v.keys) == 2 and v.keys[0] is None and v.keys[1] is None:
+        base, poured = v.values
+    elif isinstance(v, ast.Call) and isinstance(v.func, ast.Name) and v.func.id == "dict" and len(v.args) == 1 and len(v.keywords) == 1 and v.keywords[0].arg is None:
+        base, poured = v.args[0], v.keywords[0].value
+    elif isinstance(v, ast.BinOp) and isinstance(v.op, ast.BitOr):
+        base, poured = v.left, v.right
+    poured = strip_cast(poured) if poured is not None else None
+    if not isinstance(poured, ast.Name):
+        return None
+    ds = fa.df.reaching(d.node, poured.id)
+    if not ds:
+        return None
+    arms = []
+
+    def branches(x, lits):
+        x = strip_cast(x)
+        if isinstance(x, ast.IfExp):
+            return branches(x.body, lits + ((A.norm(x.test), True),)) + branches(x.orelse, lits + ((A.norm(x.test), False),))
+        return [(x, lits)]
+
+    for dd in ds:
+        if dd.kind != "assign" or dd.value is None or getattr(dd, "guard", ()):
+            return None
+        for (x, lits) in branches(dd.value, ()):
+            got = _merge_arm(fa, d, dd, v, base, x, lits)
+            if got is None:
+                return None
+            arms.append(got)
+    return arms
+
+
+def _merge_arm(fa, d, dd, v, base, x, lits):
+    if isinstance(x, ast.Call) and isinstance(x.func, ast.Name) and x.func.id == "dict" and not x.args and all(k.arg is not None for k in x.keywords):
+        keys, vals = [ast.Constant(value=k.arg) for k in x.keywords], [k.value for k in x.keywords]
+    elif isinstance(x, ast.Dict) and all(k is not None and A.const_str(k) is not None for k in x.keys):
+        keys, vals = list(x.keys), list(x.values)
+    else:
+        return None
+    # the values are read where the display is made: nothing they are made of may change on the way to the merge
+    for val in vals:
+        for n in ast.walk(val):
+            nm = _ref_name(n) if isinstance(n, (ast.Name, ast.Attribute)) else None
+            if nm is not None and {(q.node, q.name) for q in fa.df.reaching(dd.node, nm)} != {(q.node, q.name) for q in fa.df.reaching(d.node, nm)}:
+                return None
+    merged = ast.Dict(keys=[None] + keys, values=[base] + vals)
+    ast.copy_location(merged, v)
+    ast.fix_missing_locations(merged)
+    cases = set()
+    for cj in conds(fa, dd.node):
+        full = frozenset(set(cj) | set(canon_conj(lits)))
+        if not any((t, not p_) in full for (t, p_) in full):
+            cases.add(full)
+    return _Arm(d, merged, cases, dd.node)
+
+
 def reserved_key_clause(fl):
     """C16.R1 / C04.R3: the context args are put on the hash input under the reserved key, before the hash is taken,
     exactly when they are non-empty.  Returns (ok, where, stores, shapes, n_sites)."""
@@ -1618,7 +1687,10 @@ def reserved_key_clause(fl):
             sh = map_shape(c.args[0]) if len(c.args) == 1 and not c.keywords else ((None, [(k.arg, k.value) for k in c.keywords if k.arg], False) if not c.args else None)
             if sh is not None and sh[0] is None:
                 stores += [(s, c.func.value, v) for (k, v) in sh[1] if k == RESERVED]
-    shapes = [(d, map_shape(d.value)) for d in hks]
+    cases = []
+    for d in hks:
+        cases += _merge_arms(init, d) or [d]
+    shapes = [(d, map_shape(d.value)) for d in cases]
     inline = [(d, v) for (d, sh) in shapes if sh is not None for (k, v) in sh[1] if k == RESERVED]
     n_sites = len(stores) + len(inline)
     ok = bool(hks) and n_sites >= 1 and not any(sh is not None and sh[2] for (d, sh) in shapes)
@@ -1650,9 +1722,9 @@ def reserved_key_clause(fl):
             ok = ok and not (set(init.nodes(s)) & after_hash) and fl.hash_at in init.cfg.reach(init.nodes(s))
             cs |= relative(conds(init, s), base)
         for (d, v) in inline:
-            ok = ok and fl.reads_final(v, d.node, "context_args")
+            ok = ok and fl.reads_final(v, getattr(d, "at", d.node), "context_args")
             ok = ok and d.node not in after_hash and fl.hash_at in init.cfg.reach([d.node])
-            cs |= relative(case_conds(init, d), base)
+            cs |= relative(getattr(d, "cases", None) or case_conds(init, d), base)
         # exactly when non-empty
         ok = ok and holds_iff_nonempty(cs, ca_txt)
     return bool(ok), where_r, stores, shapes, n_sites
